@@ -947,10 +947,10 @@ def compile_comprehension(compiler, expr, root, parts, final):
                         to_loop = (key if dict_unpack else elt) + Result(expr =
                             # Call `key.items()` so we yield (key,
                             # value) pairs instead of just keys.
-                            asty.Call(key,
+                            asty.Call(final,
                                 args = [],
                                 keywords = [],
-                                func = asty.Attribute(key,
+                                func = asty.Attribute(final,
                                     value = key.force_expr,
                                     attr = 'items',
                                     ctx = ast.Load()))
